@@ -90,6 +90,9 @@ pub struct EpCfg {
     /// server roles: the SUBSCRIBE handler publishes through the sink (QoS 1) and awaits the acknowledgement
     /// before it answers - an application handler that depends on the connection's own outbound side
     pub handler_sends: bool,
+    /// server roles: the control service, while it handles the Stop notification, tries one more awaiting QoS 1
+    /// send through the sink (an application that reports the end of a session to the peer)
+    pub ctl_sends: bool,
 }
 
 impl Default for EpCfg {
@@ -133,6 +136,7 @@ impl Default for EpCfg {
             svc_slow_shutdown: false,
             ack_props: None,
             handler_sends: false,
+            ctl_sends: false,
         }
     }
 }
